@@ -148,6 +148,30 @@ func runGCase(c *GCase) {
 			ob.Trans = append(ob.Trans, idsOfKeys(g.GetTransitiveDependencies(t, k, gr), c.NPool))
 		}
 		if !dirty {
+			// the degree-based queries first: IsAcyclic, DetectCycles and the additions recompute every degree and would
+			// hide what the mutation itself left behind
+			for _, n := range g.GetRoots() {
+				ob.Roots = append(ob.Roots, idOfKey(n.Key, c.NPool))
+			}
+			for _, n := range g.GetLeaves() {
+				ob.Leaves = append(ob.Leaves, idOfKey(n.Key, c.NPool))
+			}
+			for i := 0; i < c.NPool; i++ {
+				t, k, gr := nodeKeyOf(poolID(i))
+				ob.Dependents = append(ob.Dependents, idsOfKeys(g.GetDependents(t, k, gr), c.NPool))
+				in, out := 0, 0
+				if n := g.GetNode(t, k, gr); n != nil {
+					in, out = n.InDegree, n.OutDegree
+					if in < 0 {
+						in = 97 // (a negative degree: no natural number of the model equals it)
+					}
+					if out < 0 {
+						out = 97
+					}
+				}
+				ob.InDeg = append(ob.InDeg, in)
+				ob.OutDeg = append(ob.OutDeg, out)
+			}
 			ob.Acyclic = g.IsAcyclic()
 			sorted, terr := g.TopologicalSort()
 			if terr == nil {
@@ -156,28 +180,18 @@ func runGCase(c *GCase) {
 					ob.Topo = append(ob.Topo, idOfKey(n.Key, c.NPool))
 				}
 			}
-			for _, n := range g.GetRoots() {
-				ob.Roots = append(ob.Roots, idOfKey(n.Key, c.NPool))
-			}
-			for _, n := range g.GetLeaves() {
-				ob.Leaves = append(ob.Leaves, idOfKey(n.Key, c.NPool))
-			}
 			if ob.Acyclic {
 				g.CalculateDepths()
 			}
 			for i := 0; i < c.NPool; i++ {
 				t, k, gr := nodeKeyOf(poolID(i))
-				ob.Dependents = append(ob.Dependents, idsOfKeys(g.GetDependents(t, k, gr), c.NPool))
-				d, in, out := 0, 0, 0
+				d := 0
 				if n := g.GetNode(t, k, gr); n != nil {
-					d, in, out = n.Depth, n.InDegree, n.OutDegree
-					if d < 0 {
+					if d = n.Depth; d < 0 {
 						d = 98
 					}
 				}
 				ob.Depths = append(ob.Depths, d)
-				ob.InDeg = append(ob.InDeg, in)
-				ob.OutDeg = append(ob.OutDeg, out)
 			}
 		}
 		c.Obs = append(c.Obs, ob)
@@ -246,6 +260,25 @@ func genGraphCases(prop string, seed int64, n int, thorough bool) []GCase {
 					ds = append(ds, rnd.Intn(np))
 				}
 				return ds
+			}
+			if i%3 == 2 {
+				// a graph that is checked, repaired by taking nodes away, and checked again after each removal: what an
+				// earlier check remembered (a cycle, or the absence of one) must not outlive the nodes it was about
+				for _, u := range rnd.Perm(np) {
+					ds := []int{rnd.Intn(np)}
+					if rnd.Intn(3) == 0 {
+						ds = append(ds, rnd.Intn(np))
+					}
+					c.Ops = append(c.Ops, GOp{Kind: "deferred", U: u, Deps: ds})
+				}
+				if i%2 == 0 { // (or repaired before the first check: the bulk additions have not been followed by any query yet)
+					c.Ops = append(c.Ops, GOp{Kind: "detect"})
+				}
+				for k := 1 + rnd.Intn(3); k > 0; k-- {
+					c.Ops = append(c.Ops, GOp{Kind: "remove", U: rnd.Intn(np)}, GOp{Kind: "detect"})
+				}
+				cases = append(cases, c)
+				continue
 			}
 			for len(c.Ops) < 4+rnd.Intn(12) {
 				x := rnd.Float64()
